@@ -109,3 +109,6 @@ func VerifStreamManagerResume(sm *StreamManager) error { return sm.resume() }
 
 // VerifXMPPTransportConn returns the connection an XMPPTransport currently uses (fault injection on the socket).
 func VerifXMPPTransportConn(t *XMPPTransport) net.Conn { return t.conn }
+
+// VerifComponentState returns the component's current connection state.
+func VerifComponentState(c *Component) ConnState { return c.CurrentState.getState() }
